@@ -750,13 +750,88 @@ fn vsign_accepts(block: &[u8], w: u32, h: u32) -> Value {
             None => json!({"stored": 0, "w": 0, "h": 0, "typ": typ}),
         }
     };
+    // the genuine block at offset 0, then 16-byte chunks that look like blocks (same family, other size fields; another
+    // supported type's block) at other offsets: only the chunk at offset 0 of a configuration transfer is the block
+    let run_with_stray = || -> Value {
+        let mut doctored = block.to_vec();
+        doctored[4] = doctored[4].wrapping_add(1);
+        doctored[5] = doctored[5].wrapping_add(5);
+        doctored[7] = doctored[7].wrapping_add(2);
+        let other: &[u8] = if block[0] == 4 { SignType::HorizonFront160x16.to_bytes() } else { SignType::Max3000Rear30x10.to_bytes() };
+        let mut s = VirtualSign::new(a, PageFlipStyle::Manual);
+        let r = catch(|| {
+            let _ = s.process_message(&Message::RequestOperation(a, Operation::ReceiveConfig));
+            let _ = s.process_message(&Message::SendData(Offset(0), Data::try_new(block.to_vec()).unwrap()));
+            let _ = s.process_message(&Message::SendData(Offset(16), Data::try_new(doctored.clone()).unwrap()));
+            let _ = s.process_message(&Message::SendData(Offset(0x0100), Data::try_new(other.to_vec()).unwrap()));
+            let _ = s.process_message(&Message::SendData(Offset(1), Data::try_new(doctored.clone()).unwrap()));
+            let _ = s.process_message(&Message::DataChunksSent(ChunkCount(1)));
+            let _ = s.process_message(&Message::RequestOperation(a, Operation::ReceivePixels));
+            let mut n = 0u16;
+            for (i, c) in full.chunks(16).enumerate() {
+                let _ = s.process_message(&Message::SendData(Offset((i * 16) as u16), Data::try_new(c.to_vec()).unwrap()));
+                n += 1;
+            }
+            let _ = s.process_message(&Message::DataChunksSent(ChunkCount(n)));
+        });
+        if r.is_err() {
+            return json!({"stored": -1, "w": 0, "h": 0, "typ": "Panic"});
+        }
+        let typ = s.sign_type().map(|t| format!("{:?}", t)).unwrap_or("None".into());
+        match s.pages().first() {
+            Some(p) => json!({"stored": s.pages().len(), "w": p.width(), "h": p.height(), "typ": typ}),
+            None => json!({"stored": 0, "w": 0, "h": 0, "typ": typ}),
+        }
+    };
+    let after_stray = run_with_stray();
     let mut short = full.clone();
     short.truncate(full.len().saturating_sub(16));
     let mut long = full.clone();
     long.extend_from_slice(&[0xFF; 16]);
     let after_same = run_after_doctored(false);
     let after_retry = run_after_doctored(true);
-    json!({"full": run(full), "short": run(short), "long": run(long), "after_doctored": after_same, "after_doctored_retry": after_retry})
+    json!({"full": run(full), "short": run(short), "long": run(long), "after_doctored": after_same, "after_doctored_retry": after_retry, "after_stray": after_stray})
+}
+
+/// All 2^bits values of the last four bytes behind a fixed 12-byte prefix: acceptance depends on the family and id bytes
+/// alone, so every one of them decodes like the block with a zero tail.  Returns (blocks tried, the first few deviants).
+fn sweep_tail(prefix: &[u8; 12], bits: u32) -> (u64, Vec<Vec<u8>>) {
+    let class = |b: &[u8; 16]| -> (u8, Option<SignType>) {
+        match std::panic::catch_unwind(|| SignType::from_bytes(b)) {
+            Ok(Ok(t)) => (0, Some(t)),
+            Ok(Err(SignTypeError::UnknownConfig { .. })) => (1, None),
+            Ok(Err(_)) => (2, None),
+            Err(_) => (3, None),
+        }
+    };
+    let mut base = [0u8; 16];
+    base[..12].copy_from_slice(prefix);
+    let want = class(&base);
+    let total: u64 = 1u64 << bits;
+    let threads = std::thread::available_parallelism().map(|n| n.get()).unwrap_or(4).min(16) as u64;
+    let per = total.div_ceil(threads);
+    let deviants = std::sync::Mutex::new(Vec::<Vec<u8>>::new());
+    std::thread::scope(|sc| {
+        for t in 0..threads {
+            let deviants = &deviants;
+            let _ = sc.spawn(move || {
+                let mut b = base;
+                let (lo, hi) = (t * per, ((t + 1) * per).min(total));
+                for v in lo..hi {
+                    // spread the values over the whole 32-bit range when fewer than 2^32 are tried
+                    let tail = if bits >= 32 { v as u32 } else { (v as u32).wrapping_mul(0x9E37_79B1) };
+                    b[12..].copy_from_slice(&tail.to_le_bytes());
+                    if class(&b) != want {
+                        let mut d = deviants.lock().unwrap();
+                        if d.len() < 4 {
+                            d.push(b.to_vec());
+                        }
+                    }
+                }
+            });
+        }
+    });
+    (total, deviants.into_inner().unwrap())
 }
 
 pub fn record_c19(a: &Args) -> usize {
@@ -809,6 +884,32 @@ pub fn record_c19(a: &Args) -> usize {
             let (w, h) = t.dimensions();
             out.emit(json!({"e": "type", "name": format!("{:?}", t), "block": j::bytes(block), "w": w, "h": h,
                             "back": decode_type(block), "vsign": vsign_accepts(block, w, h)}));
+        }
+        if sh == 0 {
+            // every value of the last four bytes behind an unsupported pair over a genuine body, behind a supported pair over
+            // another type's body, and behind an unsupported pair over zeros (quick: 2^29 values of each, spread evenly)
+            let bits = if thorough { 32 } else { 29 };
+            let g1 = SignType::Max3000Rear23x10.to_bytes();
+            let g2 = SignType::HorizonRear48x16.to_bytes();
+            let mut p1 = [0u8; 12];
+            p1.copy_from_slice(&g1[..12]);
+            p1[0] = 0x10;
+            p1[1] = 0xB9;
+            let mut p2 = [0u8; 12];
+            p2.copy_from_slice(&g2[..12]);
+            p2[0] = g1[0];
+            p2[1] = g1[1];
+            let mut p3 = [0u8; 12];
+            p3[0] = 0x04;
+            p3[1] = 0x21;
+            let prefixes: Vec<[u8; 12]> = if thorough { vec![p1, p2, p3] } else { vec![p1, p3] };
+            for pre in prefixes {
+                let (n, dev) = sweep_tail(&pre, bits);
+                for d in &dev {
+                    out.emit(json!({"e": "decode", "bytes": j::bytes(d), "r": decode_type(d)}));
+                }
+                out.emit(json!({"e": "sweep", "prefix": j::bytes(&pre), "tried": (n >> 10) as u64, "deviants": dev.len()}));
+            }
         }
         for (f, i) in pairs.iter().skip(sh * per).take(per) {
             // the other 14 bytes: from a real block, zeros, or random
